@@ -517,6 +517,9 @@ pub enum Case20 {
         rsched: IoSchedule,
         #[serde(with = "hex_serde")]
         trailing: Vec<u8>,
+        /// non-zero: seed of a per-atom representation plan for the tree handed to the serializer
+        #[serde(default)]
+        repr: u64,
     },
     Bytes {
         /// body (the magic prefix is prepended)
@@ -735,6 +738,7 @@ impl Scenario for C20 {
                 wsched,
                 rsched,
                 trailing,
+                repr: if rng.chance(1, 2) { rng.next_u64() | 1 } else { 0 },
             }
         } else {
             // a valid blob under storage faults, or random bytes
@@ -775,9 +779,10 @@ impl Scenario for C20 {
                 wsched,
                 rsched,
                 trailing,
+                repr,
             } => {
                 let mut a = Allocator::new();
-                let Ok(node) = tree.to_alloc(&mut a) else { return out };
+                let Ok(node) = crate::scen::interp2::to_alloc_repr(&mut a, tree, *repr, &mut out) else { return out };
                 let blob = match serialize_2026(&a, node, *level) {
                     Ok(b) => b,
                     Err(e) => {
@@ -1144,6 +1149,7 @@ impl Scenario for C20 {
                 wsched,
                 rsched,
                 trailing,
+                repr,
             } => {
                 let mut v: Vec<Case20> = tree
                     .shrink_candidates()
@@ -1154,6 +1160,7 @@ impl Scenario for C20 {
                         wsched: wsched.clone(),
                         rsched: rsched.clone(),
                         trailing: trailing.clone(),
+                        repr: *repr,
                     })
                     .collect();
                 v.push(Case20::RoundTrip {
@@ -1162,7 +1169,18 @@ impl Scenario for C20 {
                     wsched: IoSchedule::clean(),
                     rsched: IoSchedule::clean(),
                     trailing: vec![],
+                    repr: *repr,
                 });
+                if *repr != 0 {
+                    v.push(Case20::RoundTrip {
+                        tree: tree.clone(),
+                        level: *level,
+                        wsched: wsched.clone(),
+                        rsched: rsched.clone(),
+                        trailing: trailing.clone(),
+                        repr: 0,
+                    });
+                }
                 v
             }
             Case20::Structured { .. } => vec![],
@@ -1189,15 +1207,15 @@ impl Scenario for C20 {
 
     fn sample(case: &Case20) -> Value {
         match case {
-            Case20::RoundTrip { tree, level, wsched, rsched, trailing } => {
-                json!({"kind": "roundtrip", "tree": tree.brief(120), "level": level, "writer_hard_fault": format!("{:?}", wsched.hard), "reader_hard_fault": format!("{:?}", rsched.hard), "trailing_bytes": trailing.len()})
+            Case20::RoundTrip { tree, level, wsched, rsched, trailing, repr } => {
+                json!({"kind": "roundtrip", "tree": tree.brief(120), "level": level, "atom_representation_plan": *repr != 0, "writer_hard_fault": format!("{:?}", wsched.hard), "reader_hard_fault": format!("{:?}", rsched.hard), "trailing_bytes": trailing.len()})
             }
             Case20::Structured { body, expect, overlong, trailing, .. } => json!({"kind": "structured", "blob": format!("fdff32303236 {}", hex_short(body)), "reference_tree": expect.brief(100), "overlong_varints": overlong, "trailing_bytes": trailing.len()}),
             Case20::Bytes { body, max_atom_len, .. } => json!({"kind": "bytes", "blob": format!("fdff32303236 {}", hex_short(body)), "max_atom_len": max_atom_len}),
         }
     }
     fn rule() -> &'static str {
-        "three case kinds. Structured (1/4): a body written by the harness from docs/serde-2026.md - groups in any order and form, unreferenced atoms, right-first conses, pair back-references, optional trailing bytes, 1/5 with over-long varints - with the tree the reference stack machine builds from it: strict and lenient decoders must give that tree and consume exactly the blob, the probe must equal the blob length, strict decoder and strict probe must reject over-long varints, max_atom_len one below the longest table atom must refuse. RoundTrip: seeded tree, level in {0,1,7,u32::MAX}; serialize_2026 / _to_stream through a writer with short writes, EINTR and (1/3) a hard error at an offset; deserialize strict and lenient with max_atom_len in {longest-1 (must fail), longest, 2^22}, with optional trailing bytes; length probe; a reader session with short reads, EINTR and (1/3) EOF or an error at an offset; legacy decoders must reject the blob. Bytes: magic prefix + body, where body is (first 65,793 runs) every string of length <=2, then a valid body under storage-fault mutations or random bytes, max_atom_len in {0,1,longest-1,longest,2^16,2^20,2^22}; strict and lenient decoders, body decoder, probe and a reader session must return, stay within the allocation bound, and agree. Non-trivial: tree of >=3 nodes / body of >=2 bytes."
+        "three case kinds. Structured (1/4): a body written by the harness from docs/serde-2026.md - groups in any order and form, unreferenced atoms, right-first conses, pair back-references, optional trailing bytes, 1/5 with over-long varints - with the tree the reference stack machine builds from it: strict and lenient decoders must give that tree and consume exactly the blob, the probe must equal the blob length, strict decoder and strict probe must reject over-long varints, max_atom_len one below the longest table atom must refuse. RoundTrip: seeded tree, in half of the cases built with a per-atom representation plan (inline, own heap buffer, substring view, number constructor - so equal atoms, nil included, can exist in several forms), level in {0,1,7,u32::MAX}; serialize_2026 / _to_stream through a writer with short writes, EINTR and (1/3) a hard error at an offset; deserialize strict and lenient with max_atom_len in {longest-1 (must fail), longest, 2^22}, with optional trailing bytes; length probe; a reader session with short reads, EINTR and (1/3) EOF or an error at an offset; legacy decoders must reject the blob. Bytes: magic prefix + body, where body is (first 65,793 runs) every string of length <=2, then a valid body under storage-fault mutations or random bytes, max_atom_len in {0,1,longest-1,longest,2^16,2^20,2^22}; strict and lenient decoders, body decoder, probe and a reader session must return, stay within the allocation bound, and agree. Non-trivial: tree of >=3 nodes / body of >=2 bytes."
     }
     fn default_runs(tier: Tier) -> u64 {
         match tier {
